@@ -36,6 +36,16 @@ type Options struct {
 	HomogeneousTime  bool                                         // all processes share ExpireKeyAfter / RevokeCheckInterval / CreateDatePrecision
 	NoRetainAEAD     bool
 	PayloadGen       func(t *rapid.T) []byte // overrides the payload generator
+	Fixed            *Fixed                  // when set, nothing is drawn by New
+}
+
+// Fixed pins everything New would otherwise draw (used for re-executable scenarios).
+type Fixed struct {
+	Start    time.Time
+	Service  string
+	Product  string
+	Parts    []string
+	Policies []*appencryption.CryptoPolicy // one per process (copied)
 }
 
 // Proc is one "process": a SessionFactory with its own policy and caches.
@@ -243,7 +253,11 @@ func CacheClass(p *appencryption.CryptoPolicy) string {
 // New builds a world; the caller must defer w.Teardown().
 func New(t *rapid.T, opt Options) *World {
 	w := &World{T: t, Opt: opt, Labels: map[string]int{}, kv: map[int]appencryption.DataRowRecord{}}
-	w.Start = time.Unix(1_700_000_000+int64(rapid.IntRange(0, 7199).Draw(t, "startOffset")), int64(rapid.IntRange(0, 999).Draw(t, "startMs"))*1e6)
+	if opt.Fixed != nil {
+		w.Start = opt.Fixed.Start
+	} else {
+		w.Start = time.Unix(1_700_000_000+int64(rapid.IntRange(0, 7199).Draw(t, "startOffset")), int64(rapid.IntRange(0, 999).Draw(t, "startMs"))*1e6)
+	}
 	verifhook.InstallClock(w.Start)
 	w.Log = &kit.CallLog{}
 	w.Store = kit.NewStore(w.Log)
@@ -254,6 +268,17 @@ func New(t *rapid.T, opt Options) *World {
 	w.Secrets = kit.NewTracker()
 	if opt.RealSecrets {
 		w.Secrets.Inner = new(memguard.SecretFactory)
+	}
+	if f := opt.Fixed; f != nil {
+		w.Service, w.Product = f.Service, f.Product
+		w.Parts = append([]string(nil), f.Parts...)
+		for i, pol := range f.Policies {
+			cp := *pol
+			p := &Proc{Name: fmt.Sprintf("P%d", i), Policy: &cp}
+			w.startProc(p)
+			w.Procs = append(w.Procs, p)
+		}
+		return w
 	}
 	w.Service = drawID(t, "service", opt.SimpleIDs)
 	w.Product = drawID(t, "product", opt.SimpleIDs)
